@@ -8,6 +8,8 @@
 // Result: {"yara":   {"error": text} | {"scans": [SCAN, ...]},
 //          "boreal": {"error": text} | {"panic": text} | {"scans": [SCAN, ...]}}
 //   SCAN (yara):   {"err": null|text, "rules": [RULE, ...]}        every non-private rule, matched or not
+//   boreal also: "desc": [[nb literals, kind], ...] per string in compilation order (global rules' strings first),
+//                read through the hook Scanner::verif_describe_strings (cfg boreal_verif)
 //   SCAN (boreal): {"err": null|text, "rules": [RULE, ...],        compute_full_matches + include_not_matched
 //                   "default": ["ns:name", ...]}                   matched rules under default ScanParams
 //   RULE: {"ns", "name", "matched", "strings": [{"name", "matches": [[offset, length], ...]}]}
@@ -165,6 +167,14 @@ fn run_boreal(case: &Value) -> Value {
         Ok(s) => s,
         Err(e) => return json!({"error": e}),
     };
+    #[cfg(boreal_verif)]
+    let desc: Vec<Value> = scanner
+        .verif_describe_strings()
+        .iter()
+        .map(|d| json!([d.literals.len(), d.kind]))
+        .collect();
+    #[cfg(not(boreal_verif))]
+    let desc: Vec<Value> = Vec::new();
     let mut full = scanner.clone();
     full.set_scan_params(
         boreal::scanner::ScanParams::default()
@@ -191,7 +201,7 @@ fn run_boreal(case: &Value) -> Value {
             .collect();
         scans.push(json!({"err": err.or(err2), "rules": rules, "default": default}));
     }
-    json!({"scans": scans})
+    json!({"scans": scans, "desc": desc})
 }
 
 fn probe(mods: &[Value]) -> Value {
